@@ -37,12 +37,23 @@ func c08Step(x *engine.Exec) []engine.Failure {
 		if len(prev.Vals[x.Op.V].ValShares) == 0 {
 			x.Cnt.Inc("slash.validator_without_alliance_stake")
 		}
+		if x.Res.EffFrac.IsNil() || x.Res.EffFrac.IsZero() {
+			// x/staking computed a zero burn (validator power 0): it does not call the hook at all
+			x.Cnt.Inc("slash.zero_effective_fraction_no_callback")
+			return nil
+		}
 		hookErr := ""
 		if x.Res.Err != nil {
 			hookErr = x.Res.Err.Error()
 		}
 		if x.Res.HookErr != "" {
 			hookErr = x.Res.HookErr
+		}
+		abortCause := "callback-aborted"
+		if strings.Contains(hookErr, "insufficient funds") {
+			// the reward claim inside the callback hit an overdrawn rewards pool (C12's defect): root cause of everything
+			// this transition leaves undone
+			abortCause = "reward-pool-short"
 		}
 		if hookErr != "" {
 			cause := "other"
@@ -61,12 +72,13 @@ func c08Step(x *engine.Exec) []engine.Failure {
 			out = append(out, fail("callback-error", cause, "slash(v%d,%s) callback failed: %s", x.Op.V, x.Op.F, hookErr))
 		}
 		if !x.Next.Snap().Flag {
-			out = append(out, fail("rebalance-not-scheduled", causeIf(hookErr != "", "callback-aborted", ""), "slash(v%d,%s): no voting-power rebalance queued after the callback", x.Op.V, x.Op.F))
+			out = append(out, fail("rebalance-not-scheduled", causeIf(hookErr != "", abortCause, ""), "slash(v%d,%s): no voting-power rebalance queued after the callback", x.Op.V, x.Op.F))
 		}
 		// completeness of the C06/C07 effects: only the part that an aborted callback leaves undone is C08's business
 		for _, f := range c07SlashOracle(x, ref) {
 			if f.Cause == "callback-aborted" {
 				f.Oracle = "incomplete-slash"
+				f.Cause = abortCause
 				out = append(out, f)
 			}
 		}
@@ -75,7 +87,7 @@ func c08Step(x *engine.Exec) []engine.Failure {
 			if sh.Sign() > 0 {
 				after := x.Next.Snap().Vals[x.Op.V].ValShares[den]
 				if after != nil && after.Cmp(sh) >= 0 {
-					out = append(out, fail("incomplete-slash", causeIf(hookErr != "", "callback-aborted", ""), "slash(v%d,%s): validator shares of %s not reduced", x.Op.V, x.Op.F, den))
+					out = append(out, fail("incomplete-slash", causeIf(hookErr != "", abortCause, ""), "slash(v%d,%s): validator shares of %s not reduced", x.Op.V, x.Op.F, den))
 				}
 			}
 		}
